@@ -1054,6 +1054,7 @@ async fn make_edit(w: &mut World, built: &Built, e: usize, ts: u64, rng: &mut Rn
             // the attacker stakes his own coins with the real wallet function
             let mut t = w
                 .aw
+                .clone()
                 .create_staking_transaction(stake_amt, w.node.blockchain.get_latest_unlocked_stake_block_id(), (latest + 1).saturating_sub(gp))
                 .ok()?;
             t.timestamp = ts;
@@ -1110,6 +1111,7 @@ async fn make_edit(w: &mut World, built: &Built, e: usize, ts: u64, rng: &mut Rn
         "bound-create-valid" => {
             let mut t = w
                 .aw
+                .clone()
                 .create_bound_transaction(own.amount, own.block_id, own.tx_ordinal, own.slip_index as u64, 250_000, vec![], &vpk, None, latest, gp, "c01".to_string())
                 .await
                 .ok()?;
@@ -1120,7 +1122,7 @@ async fn make_edit(w: &mut World, built: &Built, e: usize, ts: u64, rng: &mut Rn
         "bound-send-valid" => {
             // creator = holder: the attacker hands his NFT to the victim (real wallet function)
             let id = w.nft_a2a.as_ref()?.id();
-            let mut t = w.aw.create_send_bound_transaction(1, id, vec![], &vpk).await.ok()?;
+            let mut t = w.aw.clone().create_send_bound_transaction(1, id, vec![], &vpk).await.ok()?;
             t.timestamp = ts;
             t.sign(&ask);
             one(t)
@@ -1128,7 +1130,7 @@ async fn make_edit(w: &mut World, built: &Built, e: usize, ts: u64, rng: &mut Rn
         "bound-owner-not-creator-sends" => {
             // the victim holds the NFT the attacker minted for him and sends it on
             let id = w.nft_a2v.as_ref()?.id();
-            let mut t = w.vw.create_send_bound_transaction(1, id, vec![], &keypair(9).0).await.ok()?;
+            let mut t = w.vw.clone().create_send_bound_transaction(1, id, vec![], &keypair(9).0).await.ok()?;
             t.timestamp = ts;
             t.sign(&vsk);
             one(t)
@@ -1216,6 +1218,7 @@ async fn make_edit(w: &mut World, built: &Built, e: usize, ts: u64, rng: &mut Rn
         | "bound-create-inflated" | "bound-create-extra-bound-output" => {
             let mut t = w
                 .aw
+                .clone()
                 .create_bound_transaction(own.amount, own.block_id, own.tx_ordinal, own.slip_index as u64, 250_000, vec![], &apk, None, latest, gp, "c01".to_string())
                 .await
                 .ok()?;
@@ -1634,6 +1637,7 @@ async fn rule_probes(w: &mut World, ts: u64) -> Vec<(String, Transaction)> {
     let latest = w.node.blockchain.get_latest_block_id();
     let base = w
         .aw
+        .clone()
         .create_bound_transaction(own.amount, own.block_id, own.tx_ordinal, own.slip_index as u64, 250_000, vec![], &apk, None, latest, w.plan.gp, "c01".to_string())
         .await;
     if let Ok(mut base) = base {
@@ -1661,6 +1665,9 @@ async fn rule_probes(w: &mut World, ts: u64) -> Vec<(String, Transaction)> {
         create("three-outputs", &|t| t.to.truncate(3));
         create("input-bound", &|t| t.from[0].slip_type = SlipType::Bound);
         create("second-input", &|t| t.from.push(zero_normal.clone()));
+    } else {
+        // the wallet refused to build the base transaction: the probes below it would silently vanish
+        v.push(("create:BASE-UNAVAILABLE".to_string(), Transaction::default()));
     }
     // ---- stake rules
     let own = w.attacker_slips[3].clone();
@@ -2148,6 +2155,11 @@ async fn main() {
         let mut scripted: Vec<(String, Transaction)> = overflow_cases(&w, ts).into_iter().map(|(n, t)| (n.to_string(), t)).collect();
         scripted.extend(rule_probes(&mut w, ts).await);
         for k in 0..n_fuzz + scripted.len() {
+            if k >= n_fuzz && scripted[0].0.ends_with("UNAVAILABLE") {
+                let (name, _) = scripted.remove(0);
+                summary.oracle_failure(case_no, &format!("scripted probes cannot be built: {}", name), &format!("{{\"case\":{},\"edit\":\"{}\",{}}}", case_no, name, world_desc));
+                continue;
+            }
             let (label, mut t, tamper) = if k < n_fuzz {
                 let (bname, t0, sk) = rng.pick(&base).clone();
                 let mut t = t0.clone();
